@@ -1,7 +1,7 @@
 (** C05 — every reachable destination field is accounted for exactly once. *)
 From Coq Require Import String.
 From Cvg Require Import Base GoTypes Dump Options Front Builder.
-From Cvg.proofs Require Import BuilderProofs PartitionProofs.
+From Cvg.proofs Require Import BuilderProofs PartitionProofs WarnProofs.
 Open Scope N_scope.
 
 (** The partition theorem. For every dump, options, fuel, destination struct
@@ -36,3 +36,19 @@ Print Assumptions C05_invisible_never_mentioned.
     treats anonymous struct types as always accessible, so members of an
     anonymous struct nested in an imported type are "accessible" here although
     Go hides the unexported ones: known finding C05-anon-struct-imported. *)
+
+(** Every field reported `no match` — at any nesting depth of the returned entries — has its
+    warning among the events of the run: a stderr line "<line>:<col>: no assignment for
+    <path> [<type>]" positioned at the method or at the notation that addressed the field. *)
+Theorem C05_every_no_match_has_a_positioned_warning :
+  forall d o mpos fuel L R args l ev,
+    struct_to_struct d o mpos fuel L R args = (Ok l, ev) ->
+    forall n, In n (nomatches_list l) ->
+    exists pos tn,
+      In (EvStderr (pos_str pos ++ s2b ": " ++ s2b "no assignment for " ++ assign_expr n ++ s2b " [" ++ tn ++ s2b "]")) ev.
+Proof.
+  intros d o mpos fuel L R args l ev H n Hn.
+  destruct (struct_to_struct_warned d o mpos fuel L R args l ev H n Hn) as (e & He & pos & tn & ->).
+  exists pos, tn. exact He.
+Qed.
+Print Assumptions C05_every_no_match_has_a_positioned_warning.
